@@ -206,7 +206,7 @@ def goLocalOK (env : Env) (st : St) (f : AFn) : Bool :=
   let gf := (compileFn env st f).1
   let locals := Goml.Dce.localsOf gf
   locals.Nodup && !locals.contains "_" &&
-  (calleesA f.body).all (fun c => !locals.contains (vn c))
+  (calleesA f.body).all (fun c => !locals.contains (vn c) && vn c != "_")
 
 def localOK (env : Env) (file : AFile) (G : List String) (st : St) (f : AFn) : Bool :=
   srcLocalOK env file G f && goLocalOK env st f
